@@ -110,12 +110,21 @@ class Tmatrix(ScatteringTheory):
         ndgs = 5
         alpha = scatterer.rotation[2] * 180 / np.pi
         beta = scatterer.rotation[1] * 180 / np.pi
+        # The Fortran code only accepts 0 <= alpha <= 360, 0 <= beta <= 180
+        # (and ends the process otherwise). Any real Euler angles describe
+        # an axis direction (sin(b)cos(a), sin(b)sin(a), cos(b)); bring
+        # them into that range without changing the direction:
+        beta = beta % 360
+        if beta > 180:
+            beta = 360 - beta
+            alpha = alpha + 180
+        alpha = alpha % 360
 
         # FIXME: Why does the incident polarization have to be set to  (1, 0)?
         thet0 = 0
         thet = angles[:, 0]
         phi0 = 0
-        phi = angles[:, 1]
+        phi = angles[:, 1] % 360
         nang = angles.shape[0]
 
         args = [axi, rat, lam, mrr, mri, eps, NP, ndgs, alpha, beta,
